@@ -191,53 +191,17 @@ pub fn child_main(case_json: &str) -> ! {
 }
 
 pub fn fit_isolated(case: &TwCase) -> FitRes {
-    use std::process::{Command, Stdio};
-    let exe = std::env::current_exe().expect("current exe");
-    let mut child = Command::new(exe)
-        .arg("--fit-one")
-        .arg(serde_json::to_string(case).unwrap())
-        .stdin(Stdio::null())
-        .stdout(Stdio::piped())
-        .stderr(Stdio::null())
-        .spawn()
-        .expect("spawn child");
-    // The limit is on the CPU time of the child (utime + stime from /proc/<pid>/stat, USER_HZ = 100), not on
-    // wall time: a fit that loops forever burns CPU without bound, a healthy fit needs a few 10 ms of CPU
-    // however loaded the machine is, so the verdict does not depend on the load. (Wall backstop: 10 min.)
-    let t0 = std::time::Instant::now();
-    let pid = child.id();
-    let cpu_ms = |pid: u32| -> Option<u64> {
-        let st = std::fs::read_to_string(format!("/proc/{}/stat", pid)).ok()?;
-        let rest = &st[st.rfind(')')? + 1..];
-        let tok: Vec<&str> = rest.split_whitespace().collect();
-        let ut: u64 = tok.get(11)?.parse().ok()?;
-        let stt: u64 = tok.get(12)?.parse().ok()?;
-        Some((ut + stt) * 10)
-    };
-    let mut last_cpu = 0u64;
-    loop {
-        match child.try_wait() {
-            Ok(Some(_)) => break,
-            Ok(None) => {
-                if let Some(c) = cpu_ms(pid) {
-                    last_cpu = c;
-                }
-                if last_cpu > ISO_TIMEOUT_MS || t0.elapsed().as_secs() > 600 {
-                    let _ = child.kill();
-                    let _ = child.wait();
-                    return FitRes::Timeout;
-                }
-                std::thread::sleep(std::time::Duration::from_millis(1));
-            }
-            Err(e) => panic!("waiting for child: {}", e),
+    let outp = match crate::child::run_child(&["--fit-one".to_string(), serde_json::to_string(case).unwrap()], ISO_TIMEOUT_MS) {
+        Some((stdout, cpu, code)) => {
+            MAX_CHILD_MS.fetch_max(cpu, std::sync::atomic::Ordering::Relaxed);
+            (stdout, code)
         }
-    }
-    MAX_CHILD_MS.fetch_max(last_cpu, std::sync::atomic::Ordering::Relaxed);
-    let outp = child.wait_with_output().expect("child output");
-    let txt = String::from_utf8_lossy(&outp.stdout);
+        None => return FitRes::Timeout,
+    };
+    let txt = outp.0.clone();
     let v: serde_json::Value = match serde_json::from_str(txt.trim()) {
         Ok(v) => v,
-        Err(_) => return FitRes::Panic(format!("child produced no result (exit {:?})", outp.status.code())),
+        Err(_) => return FitRes::Panic(format!("child produced no result (exit {:?})", outp.1)),
     };
     let msg = v.get("msg").and_then(|m| m.as_str()).unwrap_or("").to_string();
     match v.get("status").and_then(|s| s.as_str()) {
@@ -374,8 +338,39 @@ fn run_inner(case: &TwCase, viols: &mut Vec<Violation>) -> Out {
                 Some(m) => m,
                 None => "InvalidTargetRange".to_string(),
             };
+            // closed form of one way to get there: L-BFGS starts with the unit step along -gradient; the gradient of
+            // the (unscaled) sum objective grows with the number of rows, so for many rows that first trial point
+            // already overflows the inverse link / leaves the mean domain
+            let first_step_outside = match refopt::tw_objective(&xs, &ys, case.power, rlink, alpha_s, case.intercept, &start) {
+                Some((_, g0)) => {
+                    let t1: Vec<f64> = start.iter().zip(&g0).map(|(a, b)| a - b).collect();
+                    let eta1 = xs.iter().map(|xi| refopt::bin_score(xi, &t1, case.intercept).abs()).fold(0.0f64, f64::max);
+                    // beyond |linear predictor| = 30 (the bound of the interior-point certificate above) exp / logit
+                    // saturate or overflow; an undefined objective there counts as well
+                    eta1 > 30.0 || refopt::tw_objective(&xs, &ys, case.power, rlink, alpha_s, case.intercept, &t1).is_none()
+                }
+                None => false,
+            };
+            if first_step_outside {
+                viols.push(Violation::new(
+                    "tweedie.fit.error.first_unit_gradient_step_leaves_objective_domain",
+                    format!(
+                        "fit on {} rows with targets inside the support returned Err({}): the first L-BFGS trial point start - gradient(start) (gradient norm grows with the row count, the objective is an unscaled sum) moves the linear predictor beyond +-30, where the inverse link saturates / the objective overflows; own Newton finds a stationary point at {:?}",
+                        n, e, own.x
+                    ),
+                    cj(),
+                ));
+                return out;
+            }
+            // f32: the solver reaches the noise floor of the f32 objective, takes a zero-length step and continues with
+            // NaN parameters (same mechanism as logistic.fit.does_not_terminate.f32); the f64 run of the same data passes
+            let sig = if is32 && (e.contains("not finite") || e.contains("NaN or Inf") || e.contains("descent direction")) {
+                "tweedie.fit.error_nonfinite.f32".to_string()
+            } else {
+                format!("tweedie.fit.unexpected_error.{}.{}", power_class(case.power), case.link)
+            };
             viols.push(Violation::new(
-                format!("tweedie.fit.unexpected_error.{}.{}", power_class(case.power), case.link),
+                sig,
                 format!("fit with targets inside the support returned Err({}) (own Newton finds a stationary point at {:?})", e, own.x),
                 cj(),
             ));
@@ -477,7 +472,10 @@ fn run_inner(case: &TwCase, viols: &mut Vec<Violation>) -> Out {
         }
         // the linear predictor (|eta| up to 1e3) is rounded differently by the two sides: allow |eta| * 1e-12 relative on exp
         let want = if is32 { (want as f32) as f64 } else { want };
-        let tol = prel * want.abs().max(1e-300) * (1.0 + eta.abs());
+        // rounding of the linear predictor scales with the magnitude of its operands (cancellation between the terms
+        // must not be held against the subject) and reaches the prediction through the slope of the inverse link
+        let opmag: f64 = qi.iter().zip(&w).map(|(a, c)| (a * c).abs()).sum::<f64>() + b.abs();
+        let tol = prel * (want.abs().max(1e-300) + rlink.inv_der(eta).abs() * opmag * (d as f64 + 1.0));
         if !(got == want || (got - want).abs() <= tol.max(if is32 { 1e-30 } else { 1e-12 })) {
             viols.push(Violation::new("tweedie.predict.wrong_value", format!("query {:?}: prediction {} but inverse link of x.coef + intercept = {}", qi, got, want), cj()));
         }
